@@ -8,7 +8,8 @@ def gen_leaf(rng):
     if r < 0.25: return ['L%d' % rng.randrange(0, 6)]
     if r < 0.40: 
         while True:
-            s = gen_string(rng, False)
+            # (also tables with field-name directives, `target[{field}]=level`: they apply to callsites declaring the field)
+            s = gen_string(rng, rng.random() < 0.4)
             # only strings the Targets parser accepts and that contain no empty level / level-named target
             if all(p and not p.endswith('=') and p.count('=') <= 1 for p in s.split(',')) and not any(c in s for c in ' +') and \
                all((p.split('=')[1].lower() in ('off','error','warn','info','debug','trace') or p.split('=')[1] in '012345') for p in s.split(',') if '=' in p) and \
